@@ -501,7 +501,7 @@ class Translator:
         return "let %s := py_for_range %s (fun %s %s =>\n    %s) %s in\n  %s" % (acc, to_N(n), acc, i, body.replace("\n", "\n  "), init, cont(env))
 
     # ---------------------------------------------------------------- functions
-    COQ_TYPES = {"S": "T", "V": "V3 T", "M": "M3 T", "P": "Pose T", "B": "bool", "A": "Arr"}
+    COQ_TYPES = {"S": "T", "V": "V3 T", "M": "M3 T", "P": "Pose T", "B": "bool", "A": "(@Arr T)"}
 
     def function(self, fdef, coq_name, ptypes=None, rtype=None):
         self.rtype = rtype
@@ -523,7 +523,7 @@ class Translator:
             ann = ast.unparse(a.annotation) if a.annotation is not None else None
             if ann == "np.ndarray":
                 env[a.arg] = Val(a.arg, "A")
-                params.append("(%s : Arr)" % a.arg)
+                params.append("(%s : @Arr T)" % a.arg)
             elif ann == "bool":
                 env[a.arg] = Val(a.arg, "B")
                 params.append("(%s : bool)" % a.arg)
@@ -554,7 +554,7 @@ Variable eps : T.                             (* np.finfo(float64).eps *)
 
 """
 FOOTER = "\nEnd Gen.\n"
-STUB_BODY = "Definition umeyama_alignment_gen (x y : Arr) (with_scale : bool) : option (M3 T * V3 T * T) := None.  (* translation failed *)"
+STUB_BODY = "Definition umeyama_alignment_gen (x y : @Arr T) (with_scale : bool) : option (M3 T * V3 T * T) := None.  (* translation failed *)"
 
 
 LIE_SIGS = {   # evo/core/lie_algebra.py: the functions translated, in dependency order (types are the harness's reading
